@@ -196,6 +196,33 @@ def State.structFieldTy (st : State) (tyName : String) (i : Nat) : Option Ty :=
     | none => none
   | none => none
 
+mutual
+/-- structural equality of types (`Ty: PartialEq`); the derived `BEq Ty` is not reducible by the
+    kernel, and the non-vacuity examples evaluate the model there -/
+def tyBeq : Ty → Ty → Bool
+  | .unit, .unit => true
+  | .bool, .bool => true
+  | .int b s, .int b' s' => b == b' && s == s'
+  | .float b, .float b' => b == b'
+  | .string, .string => true
+  | .tuple ts, .tuple ts' => tyListBeq ts ts'
+  | .enum n, .enum n' => n == n'
+  | .struct n, .struct n' => n == n'
+  | .dyn n, .dyn n' => n == n'
+  | .app t args, .app t' args' => tyBeq t t' && tyListBeq args args'
+  | .array l e, .array l' e' => l == l' && tyBeq e e'
+  | .vec e, .vec e' => tyBeq e e'
+  | .ref e, .ref e' => tyBeq e e'
+  | .param n, .param n' => n == n'
+  | .func ps r, .func ps' r' => tyListBeq ps ps' && tyBeq r r'
+  | .tvar n, .tvar n' => n == n'
+  | _, _ => false
+def tyListBeq : List Ty → List Ty → Bool
+  | [], [] => true
+  | t :: ts, t' :: ts' => tyBeq t t' && tyListBeq ts ts'
+  | _, _ => false
+end
+
 def primTy : Prim → Ty
   | .unit => .unit
   | .bool _ => .bool
@@ -478,7 +505,7 @@ def liftFn (st : State) (f : Fn) : Fn × State :=
   let saved := st.ctx
   let (body, bty, st) := transformExpr (match fnCtx with | some c => { st with ctx := c :: st.ctx } | none => st) sc f.body
   let st := { st with ctx := saved }
-  let ret := if bty != f.ret && tyContainsClosure st.closureTypes bty then bty else f.ret
+  let ret := if !tyBeq bty f.ret && tyContainsClosure st.closureTypes bty then bty else f.ret
   let st := st.insertFunc f.name (.func (f.params.map (·.2)) ret)
   ({ name := f.name, generics := f.generics, params := f.params, ret := ret, body := body }, st)
 
@@ -504,8 +531,10 @@ def liftFile (env : Env) (fns : List Fn) : List Fn × State :=
   let (fs, st) := liftFns (initState env) fns
   (fs ++ st.newFns, st)
 
-/-- the lifted program: functions of `liftFile`, declarations and dispatch table unchanged -/
+/-- the lifted program: functions of `liftFile`; struct declarations are the closure environments
+    followed by the user structs after field rewriting; enums and dispatch table unchanged -/
 def liftProg (env : Env) (p : Prog) : Prog :=
-  { p with fns := (liftFile env p.fns).1 }
+  let r := liftFile env p.fns
+  { p with fns := r.1, structs := r.2.liftedStructs ++ r.2.structs }
 
 end Goml.Lift
